@@ -278,15 +278,13 @@ def getWindowUpdate (s : Stream) (conn : Base) (now rtt : Int) (allow : Option B
   if s.receivedFinalOffset then (s, conn, 0, [], false)
   else
     let oldWindowSize := s.base.receiveWindowSize
-    match s.base.getWindowUpdate now rtt none with
-    | (b, offset, calls, panicked) =>
-      let s := { s with base := b }
-      if panicked then (s, conn, 0, calls, true)
-      else if b.receiveWindowSize > oldWindowSize then
-        match Conn.ensureMinimumWindowSize conn (connMinimumFor b.receiveWindowSize) now allow with
-        | (conn', calls', true) => (s, conn', 0, calls ++ calls', true)
-        | (conn', calls', false) => (s, conn', offset, calls ++ calls', false)
-      else (s, conn, offset, calls, false)
+    let r := s.base.getWindowUpdate now rtt none          -- (base, offset, calls, panicked)
+    let s' := { s with base := r.1 }
+    if r.2.2.2 then (s', conn, 0, r.2.2.1, true)
+    else if r.1.receiveWindowSize > oldWindowSize then
+      let e := Conn.ensureMinimumWindowSize conn (connMinimumFor r.1.receiveWindowSize) now allow   -- (conn, calls, panicked)
+      if e.2.2 then (s', e.1, 0, r.2.2.1 ++ e.2.1, true) else (s', e.1, r.2.1, r.2.2.1 ++ e.2.1, false)
+    else (s', conn, r.2.1, r.2.2.1, false)
 
 end Stream
 
